@@ -30,11 +30,16 @@ func (a *accumulator) Accumulate(mesgNum typedef.MesgNum, fieldNum byte, val pro
 	for i := range a.values {
 		v := &a.values[i]
 		if v.mesgNum == mesgNum && v.fieldNum == fieldNum {
+			if v.value.Type() == proto.TypeInvalid { // first seen in this sequence: nothing to carry over yet
+				v.last = val
+				return v.last
+			}
 			v.last = sum(val, v.value) // val must be first argument in case we are handling slices
 			return v.last
 		}
 	}
-	a.values = append(a.values, value{mesgNum: mesgNum, fieldNum: fieldNum, value: val, last: val})
+	// Not collected by any previous sequence: the value to carry over is only known once this sequence completes.
+	a.values = append(a.values, value{mesgNum: mesgNum, fieldNum: fieldNum, last: val})
 	return val
 }
 
